@@ -13,8 +13,7 @@ NOT_APPLICABLE = {
     # property id -> reason (only for properties that no rule module claims)
 }
 # rule modules that exist but are not claimed yet (work in progress) -> listed as not applicable for now
-HOLD = {"C05": "rule module under construction (check not yet silent on the unchanged tree)",
-        "C18": "rule module under construction (check not yet silent on the unchanged tree)"}
+HOLD = {}
 
 BASELINE_CMD = ("cd /repo && /venv/bin/python -m pytest -ra -q -p no:cacheprovider --timeout=900 "
                 "--continue-on-collection-errors --junitxml=/tmp/pyrates_verif_baseline.junit.xml")
